@@ -1,6 +1,6 @@
 """GraphNode - wrapper for using graphs as nodes."""
 
-from typing import TYPE_CHECKING, Any, Literal, TypeVar
+from typing import TYPE_CHECKING, Any, Literal, TypeVar, Union
 
 from hypergraph.nodes._rename import build_reverse_rename_map
 from hypergraph.nodes.base import HyperNode, RenameEntry
@@ -161,24 +161,33 @@ class GraphNode(HyperNode):
         """
         result: dict[str, Any] = {}
 
-        # Build mapping: output_name -> source_node
-        output_to_node: dict[str, HyperNode] = {}
+        # Build mapping: output_name -> source nodes (exclusive gate branches may
+        # produce the same name)
+        output_to_nodes: dict[str, list[HyperNode]] = {}
         for node in self._graph.iter_nodes():
             for output in node.outputs:
-                output_to_node[output] = node
+                output_to_nodes.setdefault(output, []).append(node)
 
         # For each output of this GraphNode, get type from source node
         # (the inner graph knows an output renamed via with_outputs by its original name)
         reverse_map = build_reverse_rename_map(self._rename_history, "outputs")
         for output_name in self.outputs:
             original_name = reverse_map.get(output_name, output_name)
-            source_node = output_to_node.get(original_name)
-            if source_node is None:
+            source_nodes = output_to_nodes.get(original_name)
+            if not source_nodes:
                 result[output_name] = self._wrap_type_for_map_over(None)
                 continue
 
-            # Use universal get_output_type method
-            output_type = source_node.get_output_type(original_name)
+            # Use universal get_output_type method; with several producers the value
+            # may come from any of them, so its type is the union of theirs (and
+            # unknown as soon as one of them is not annotated)
+            output_types = [source_node.get_output_type(original_name) for source_node in source_nodes]
+            output_type = output_types[0]
+            for other in output_types[1:]:
+                if output_type is None or other is None:
+                    output_type = None
+                elif other != output_type:
+                    output_type = Union[output_type, other]
             result[output_name] = self._wrap_type_for_map_over(output_type)
 
         return result
